@@ -404,7 +404,7 @@ Section Transition.
       wp (match r with
           | Some s' => ret (Some s')
           | None =>
-              bind get (fun w1 => bind (put (w1 <| st := Some ns |> <| wintr := None |> <| wrecalled := None |>)) (fun _ =>
+              bind get (fun w1 => bind (put (w1 <| st := Some ns |> <| wintr := None |> <| wrecalled := [] |>)) (fun _ =>
               bind (emit (EvEntered (cur_label w) (label_of ns))) (fun _ =>
               bind get (fun w2 => bind (when (hooks_alive w2) (on_entered rec_ctl w)) (fun _ => ret None)))))
           end) Q w1).
@@ -891,13 +891,12 @@ Proof.
   match goal with |- wp _ _ ?w' => destruct (st w') as [cur|] eqn:Hst end; [|wp_prim; apply HQ; exact H0].
   destruct cur; try (wp_prim; apply HQ; exact H0).
   assert (Hk : forall w1, R w0 w1 ->
-     wp (bind get (fun w' => match wrecalled w' with
-          | Some r => if Nat.eqb r id then bind (modify (fun w => w <| wrecalled := None |>)) (fun _ => again (Some id))
-                      else ret (XoInterrupted id)
-          | None => ret (XoInterrupted id)
-          end)) Q w1).
+     wp (bind get (fun w' =>
+          if existsb (Nat.eqb id) (wrecalled w')
+          then bind (modify (fun w => w <| wrecalled := filter (fun r => negb (Nat.eqb id r)) (wrecalled w) |>)) (fun _ => again (Some id))
+          else ret (XoInterrupted id))) Q w1).
   { intros w1 H1. do 2 wp_prim. wp_case; [|wp_prim; apply HQ; exact H1].
-    wp_case; [|wp_prim; apply HQ; exact H1]. do 2 wp_prim. eapply Hag; [r_frame | exact HQ]. }
+    do 2 wp_prim. eapply Hag; [r_frame | exact HQ]. }
   wp_prim. wp_case.
   - use fresh_frame; [exact H0|]. intros r w1 H1 S1. destruct r as [wid'|e]; cbv beta iota; [|apply HQ; exact H1].
     wp_prim. apply Hk.
